@@ -129,8 +129,34 @@ def header_order(db, fn):
     events = []
     hd = None
     # the header vector = the local passed to poseidon_hash_many
+    def parts(tr):
+        """a.chain(b) / [x, y, z] written as one extend: the pieces in order, each as a pseudo leaf set"""
+        if isinstance(tr, tuple) and tr and tr[0] == 'chain' and len(tr) == 3:
+            return parts(tr[1]) + parts(tr[2])
+        if isinstance(tr, tuple) and tr and tr[0] in ('array', 'tuple') and len(tr) > 1:
+            out_ = []
+            for x in tr[1:]:
+                out_ += parts(x)
+            return out_
+        sh = exprtree.show(tr)
+        if 'pedersen_hash' in sh:
+            return [{'call:starknet_crypto::pedersen_hash::pedersen_hash#0'}]
+        m = re.search(r'len\((?:[\w:<> ]+\()*a1\.(\w+)', sh)
+        if m:
+            return [{f'len(a1.{m.group(1)})'}]
+        m = re.search(r'a1\.(\w+)', sh)
+        if m:
+            return [{f'a1.{m.group(1)}'}]
+        if sh == 'a2':
+            return [{'a2'}]
+        return [set()]
     for bi, t in fn.calls():
         if t['f'].get('name') in ('push', 'extend') and len(t.get('args', [])) > 1:
+            tr = T.operand(t['args'][1])
+            if isinstance(tr, tuple) and tr and tr[0] in ('chain', 'array') and t['f'].get('name') == 'extend':
+                for k_, lv in enumerate(parts(tr)):
+                    events.append((pos.get(bi, 1 << 30) + k_ / 1000.0, lv))
+                continue
             lv = fl.operand_leaves(t['args'][1])
             events.append((pos.get(bi, 1 << 30), lv))
     # the initial vec![..] contents come first: read the array aggregate written through the Box pointer
